@@ -140,6 +140,10 @@ def run(ctx, model_ok):
             if v in (None, "err") or out is None:
                 ctx.count("base-not-evaluable:" + k.split(":")[0])
                 continue
+            if out == "":
+                # a zero duration has no printed form at all (C10.greedy_zero): nothing to enter
+                ctx.count("empty-printed-form:" + k.split(":")[0])
+                continue
             ops2.append({"op": "exec", "lang": l, "text": out})
             idx.append((len(ops2) - 1, cfgop, l, t, k, v, out))
     ops2.append(DEFAULT)
